@@ -299,6 +299,11 @@ theorem sfine_old_orphan_stays_pending :
         s.tc = [] ∧ s.reqs = 0 ∧ s.ready = .empty ∧ s.sigw = 0 ∧ s.reader = .idle ∧ s.link = .idle))) = some true :=
   SFine.old_orphan_stays_pending
 
+/-- since /repo 602795e a request is only ever pushed into the queue registered for the client at that moment: nothing is
+    accepted into the queue of a connection that is gone (every interleaving of senders, link and pump) -/
+theorem sfine_pushed_into_current {s s' : Ocpp.ServerFine.St} (h : SFine.Reach s) (hk : s.sendLock = true) (id qi : Nat)
+    (hs : Ocpp.ServerFine.step s (.push id qi) = some s') : s.cur = some qi := SFine.pushed_into_current h hk id qi hs
+
 /-- with the repair the same interleaving drops the orphan and posts a ready signal -/
 example : (Ocpp.ServerFine.runL {} SFine.orphanRun).map (fun s => (s.pump, s.pend, s.cur)) = some (.wfOS 1, none, some 1) := by decide
 
